@@ -28,7 +28,10 @@ EXPLANATION = (
     "_shut_down_actions / _start_up_actions, which stop/close resp. start/run every service and application, and "
     "IOSoftware._can_perform_action refuses when the node is not ON; the node-is-on / node-is-off guards are true exactly "
     "in ON / exactly in OFF (R12.3); R12.6 a countdown armed inside Node.apply_timestep (the reset's automatic power_on) "
-    "is not decremented later in the same call, so BOOTING lasts as long after a reset as after a request. NOT decided: "
+    "is not decremented later in the same call, so BOOTING lasts as long after a reset as after a request; _start_up_actions "
+    "is reached only past the store of ON (start()/run() refuse before it); R12.7 Node.apply_timestep ticks processes, services, "
+    "applications and the file system only on the `operating_state == ON` edge, and every path through the is_resetting edge "
+    "clears the flag. NOT decided: "
     "the number of ticks spent in BOOTING / SHUTTING_DOWN as an arithmetic fact."
 )
 TECHNIQUE = "static: forward dataflow of the power-state enum over CFGs (transition extraction), must-pass on interface enabling, request-tree validator inventory"
@@ -308,6 +311,15 @@ def r12_5(ctx: Ctx, uni: Set[str], flows) -> None:
             w = _on_every_path_through(g, n, marks)
             ctx.record("R12.5", ctx.key(fn, f"-> {tgt} runs {act}"), fn.loc(n.ast), w is None,
                        f"every path through the store of {tgt} calls {act}" if w is None else f"{act} can be skipped", w)
+        # start()/run() refuse while the node is not ON (last clause of this rule), so the start-up actions only work *after* the
+        # store of ON: the call must not be reachable without passing such a store
+        on_stores = {n.id for n in g.nodes if (lambda v: v is not None and enum_member(v)[1] == "ON")(store_of_field(n, "self", ["operating_state"]))}
+        for m_ in nodes_calling(g, ["_start_up_actions"]):
+            p_ = g.path_avoiding([m_], lambda e: False, blocked_nodes=on_stores)
+            ctx.record("R12.5", ctx.key(fn, "_start_up_actions runs after the node is ON"), fn.loc(m_.ast), p_ is None,
+                       "the call is reached only past the store of ON" if p_ is None else
+                       "_start_up_actions is called while the node is still BOOTING: every start()/run() is refused by the power test "
+                       "and the software stays down after the boot", path_text(p_))
     for act, pairs in (("_shut_down_actions", (("services", "stop"), ("applications", "close"))),
                        ("_start_up_actions", (("services", "start"), ("applications", "run")))):
         fn = ix.method(f"Node.{act}")
@@ -391,6 +403,46 @@ def r12_6(ctx: Ctx) -> None:
 
 
 
+def r12_7(ctx: Ctx, uni: Set[str]) -> None:
+    """Software does no work while the node is not ON; the reset flag is consumed where it is acted on."""
+    ix = ctx.ix
+    ctx.rule("R12.7", "Node.apply_timestep ticks processes / services / applications / the file system only on the `operating_state == ON` "
+                      "edge; every path through the `is_resetting` edge clears the flag before the call ends")
+    fn = ix.method("Node.apply_timestep")
+    g = CFG(fn.node)
+    ld = LocalDefs(fn.node)
+    colls = ("processes", "services", "applications", "file_system")
+    ticks = []
+    for n in g.nodes:
+        for c in node_calls(n):
+            if call_name(c) == "apply_timestep" and isinstance(c.func, ast.Attribute) and any(f"self.{k}" in unparse(c.func.value) for k in colls):
+                ticks.append((n, c))
+    if len(ticks) < 4:
+        raise AnalysisError(f"R12.7: Node.apply_timestep ticks only {len(ticks)} of processes/services/applications/file_system")
+
+    def on_edge(e) -> bool:
+        es = edge_state_set(e, ["operating_state"], uni, ld)
+        return es is not None and es[0] == "self" and set(es[1]) <= {"ON"}
+
+    for n, c in ticks:
+        p = g.path_avoiding([n], on_edge)
+        ctx.record("R12.7", ctx.key(fn, f"{unparse(c.func.value)[:40]} ticks only while ON"), fn.loc(n.ast), p is None,
+                   "reached only past `self.operating_state == ON`" if p is None else
+                   "software keeps working (restarts finish, installs complete, scans run) while the node is OFF / BOOTING / SHUTTING_DOWN",
+                   path_text(p))
+    flag_edges = [e for e in g.edges() if e.label and e.label[0] == "cond" and e.label[2] is True and unparse(ld.expand(e.label[1])).endswith("is_resetting")]
+    if not flag_edges:
+        raise AnalysisError("R12.7: Node.apply_timestep no longer tests is_resetting")
+    clears = {n.id for n in g.nodes if n.kind == "stmt" and isinstance(n.ast, ast.Assign) and any(unparse(t).endswith("is_resetting") for t in n.ast.targets)
+              and isinstance(n.ast.value, ast.Constant) and n.ast.value.value is False}
+    for e in flag_edges:
+        p = None if e.dst.id in clears else g.path_avoiding([g.exit], lambda x: False, start=e.dst, blocked_nodes=clears)
+        ctx.record("R12.7", ctx.key(fn, "the reset flag is cleared when the automatic start is issued"), fn.loc(e.label[1]), p is None,
+                   "every path through the is_resetting edge passes `is_resetting = False`" if p is None else
+                   "the reset flag can survive the restart it caused: the next ordinary shutdown then restarts the node by itself", path_text(p))
+
+
+
 def check(ctx: Ctx) -> None:
     uni = set(ctx.ix.enum_members(ctx.ix.cls("NodeOperatingState")))
     if uni != {"ON", "OFF", "BOOTING", "SHUTTING_DOWN"}:
@@ -401,3 +453,4 @@ def check(ctx: Ctx) -> None:
     r12_4(ctx, uni)
     r12_5(ctx, uni, flows)
     r12_6(ctx)
+    r12_7(ctx, uni)
